@@ -1,4 +1,4 @@
-import VsbModel.Lemmas.Sync
+import VsbModel.Lemmas.SyncConv
 
 /-!
 # C06 — cloud sync converges and never deletes what retention protects
@@ -8,49 +8,6 @@ finite group lists on both sides, any `max ≥ 1`, any incoming `ok` flag and an
 `fails : Act → Bool` for the provider actions.
 -/
 namespace Vsb.Sync
-
-/-- Backup `b` is listed in group `g` of `gs`. -/
-def InGroups (gs : List Group) (g b : Nat) : Prop := ∃ e ∈ gs, e.1 = g ∧ b ∈ e.2
-/-- Group `g` is listed in `gs`. -/
-def HasGroup (gs : List Group) (g : Nat) : Prop := g ∈ gs.map (·.1)
-
-/-- "In the retention window": fewer than `max` non-empty groups (of either side) are newer. -/
-def InWindow (localGs cloudGs : List Group) (max g : Nat) : Prop :=
-  newerNonEmpty (merged localGs cloudGs) g < max
-
-theorem lookup_of_mem (m : BMap) (hm : Asc (keys m)) (g : Nat) (bs : List Nat) (h : (g, bs) ∈ m) :
-    lookup m g = some bs := by
-  induction m with
-  | nil => cases h
-  | cons e rest ih =>
-    have hk := List.pairwise_cons.mp hm
-    rw [lookup_cons]
-    simp only [List.mem_cons] at h
-    rcases h with rfl | h
-    · simp
-    · have : e.1 < g := hk.1 g (List.mem_map_of_mem (f := (·.1)) h)
-      have hne : ¬ e.1 = g := by omega
-      simp only [hne, if_false]
-      exact ih hk.2 h
-
-theorem mem_mapping_backups (gs : List Group) (g b : Nat) :
-    b ∈ (lookup (mapping gs) g).getD [] ↔ InGroups gs g b := by
-  have := mem_lookup_extendAll [] gs (by simp [keys, Asc]) g b
-  simpa [lookup, InGroups, mapping, extendAll] using this
-
-theorem mem_keys_mapping (gs : List Group) (g : Nat) : g ∈ keys (mapping gs) ↔ HasGroup gs g := by
-  have := mem_keys_extendAll [] gs g
-  simpa [keys, HasGroup, mapping, extendAll] using this
-
-theorem mem_merged_backups (localGs cloudGs : List Group) (g b : Nat) :
-    b ∈ (lookup (merged localGs cloudGs) g).getD [] ↔ InGroups localGs g b ∨ InGroups cloudGs g b := by
-  have h1 := mem_lookup_extendAll (mapping localGs) cloudGs
-    (asc_keys_extendAll [] localGs (by simp [keys, Asc])) g b
-  rw [merged, h1, mem_mapping_backups]; rfl
-
-theorem mem_keys_merged (localGs cloudGs : List Group) (g : Nat) :
-    g ∈ keys (merged localGs cloudGs) ↔ HasGroup localGs g ∨ HasGroup cloudGs g := by
-  rw [merged, mem_keys_extendAll, mem_keys_mapping]; rfl
 
 /-- Newer-count is antitone: an older group has at least as many newer non-empty groups. -/
 theorem newerNonEmpty_antitone (m : BMap) (g t : Nat) (h : t ≤ g) : newerNonEmpty m g ≤ newerNonEmpty m t := by
@@ -227,10 +184,136 @@ theorem wiped_guard_blocks_delete (localGs cloudGs : List Group) (ok : Bool) (ma
   have := (deletes_old_whole localGs cloudGs ok max hmax fails g h).2.2.2.2.2.1
   rw [hg] at this; cases this
 
+theorem hasGroup_of_inGroups {gs : List Group} {g b : Nat} (h : InGroups gs g b) : HasGroup gs g := by
+  obtain ⟨e, he, rfl, _⟩ := h
+  exact List.mem_map_of_mem he
+
+/-- A group is created only for a non-empty target group: some backup of it is listed on either side. -/
+theorem createGroup_has_backup (localGs cloudGs : List Group) (ok : Bool) (max : Nat) (hmax : 0 < max)
+    (fails : Act → Bool) (g : Nat) (h : Act.createGroup g ∈ (syncBackups localGs cloudGs ok max fails).1) :
+    ∃ b, InGroups localGs g b ∨ InGroups cloudGs g b := by
+  have r := uploadGroups_spec fails (mapping cloudGs) (targetGroups localGs cloudGs max)
+    (ok && !wipedGuard localGs cloudGs)
+  simp only [syncBackups] at h
+  generalize hup : uploadGroups fails (mapping cloudGs) (targetGroups localGs cloudGs max)
+    (ok && !wipedGuard localGs cloudGs) = up at r h
+  obtain ⟨ups, ok'⟩ := up
+  simp only [List.mem_append] at h
+  rcases h with h | h
+  · obtain ⟨⟨bs, hmem, hne⟩, _⟩ := r.create g h
+    obtain ⟨h1, _⟩ := (mem_targetGroups localGs cloudGs max hmax (g, bs)).mp hmem
+    have hl := lookup_of_mem _ (asc_keys_merged localGs cloudGs) g bs h1
+    cases bs with
+    | nil => exact absurd rfl hne
+    | cons b rest =>
+      refine ⟨b, (mem_merged_backups localGs cloudGs g b).mp ?_⟩
+      rw [hl]; simp
+  · obtain ⟨g', hg', _⟩ := (mem_deleteGroups _ _ _ _).mp h
+    cases hg'
+
+/-- Deletion is complete: after an error-free run every listed cloud group outside the window was deleted. -/
+theorem deletes_complete (localGs cloudGs : List Group) (ok : Bool) (max : Nat) (hmax : 0 < max) (fails : Act → Bool)
+    (hok : (syncBackups localGs cloudGs ok max fails).2 = true) (g : Nat)
+    (hc : HasGroup cloudGs g) (hw : ¬ InWindow localGs cloudGs max g) :
+    Act.delete g ∈ (syncBackups localGs cloudGs ok max fails).1 := by
+  simp only [syncBackups] at hok ⊢
+  generalize hup : uploadGroups fails (mapping cloudGs) (targetGroups localGs cloudGs max)
+    (ok && !wipedGuard localGs cloudGs) = up at hok ⊢
+  obtain ⟨ups, ok'⟩ := up
+  simp only at hok ⊢
+  subst hok
+  apply List.mem_append_right
+  rw [mem_deleteGroups]
+  refine ⟨g, rfl, (mem_keys_mapping cloudGs g).mpr hc, ?_, rfl⟩
+  intro hk
+  exact hw ((target_window localGs cloudGs max hmax g).mp hk).2
+
+/-- **converges.**  Let a run be fault-free and end without any error, and let `cloudGs'` be any listing
+of the cloud afterwards: the groups and backups it had and that were not deleted, plus what was created
+and uploaded.  Then a second run — whatever its failure oracle — transfers nothing, creates nothing and
+deletes nothing. -/
+theorem converges (localGs cloudGs cloudGs' : List Group) (max : Nat) (hmax : 0 < max)
+    (hok : (syncBackups localGs cloudGs true max (fun _ => false)).2 = true)
+    (hB : ∀ g b, InGroups cloudGs' g b ↔
+      (InGroups cloudGs g b ∧ Act.delete g ∉ (syncBackups localGs cloudGs true max (fun _ => false)).1) ∨
+      Act.upload g b ∈ (syncBackups localGs cloudGs true max (fun _ => false)).1)
+    (hG : ∀ g, HasGroup cloudGs' g ↔
+      (HasGroup cloudGs g ∧ Act.delete g ∉ (syncBackups localGs cloudGs true max (fun _ => false)).1) ∨
+      Act.createGroup g ∈ (syncBackups localGs cloudGs true max (fun _ => false)).1)
+    (ok' : Bool) (fails' : Act → Bool) :
+    (syncBackups localGs cloudGs' ok' max fails').1 = [] := by
+  have f1 := run_facts localGs cloudGs true max hmax (fun _ => false)
+  have f2 := run_facts localGs cloudGs' ok' max hmax fails'
+  simp only at f1 f2
+  obtain ⟨u1, c1, d1, comp1, _⟩ := f1
+  obtain ⟨u2, c2, d2, _, _⟩ := f2
+  have comp := (comp1 hok).2.2
+  -- the window is the same before and after
+  have hkeep : ∀ t, InWindow localGs cloudGs max t → NE localGs cloudGs t → NE localGs cloudGs' t := by
+    intro t hw ⟨b, hb⟩
+    rcases hb with hl | hc
+    · exact ⟨b, Or.inl hl⟩
+    · refine ⟨b, Or.inr ((hB t b).mpr (Or.inl ⟨hc, ?_⟩))⟩
+      intro hd; exact (d1 t hd).2.1 hw
+  have hsub : ∀ t, NE localGs cloudGs' t → NE localGs cloudGs t := by
+    intro t ⟨b, hb⟩
+    rcases hb with hl | hc
+    · exact ⟨b, Or.inl hl⟩
+    · rcases (hB t b).mp hc with ⟨h, _⟩ | h
+      · exact ⟨b, Or.inr h⟩
+      · exact ⟨b, Or.inl (u1 t b h).1⟩
+  have w1 : ∀ g, InWindow localGs cloudGs' max g → InWindow localGs cloudGs max g := by
+    intro g h
+    apply Classical.byContradiction
+    intro hn
+    exact outside_stays_outside localGs cloudGs cloudGs' max hmax hkeep g hn h
+  have w2 : ∀ g, InWindow localGs cloudGs max g → InWindow localGs cloudGs' max g :=
+    fun g => inside_stays_inside localGs cloudGs cloudGs' max hsub g
+  -- no action of the second run is possible
+  cases hacts : (syncBackups localGs cloudGs' ok' max fails').1 with
+  | nil => rfl
+  | cons a rest =>
+    exfalso
+    have ha : a ∈ (syncBackups localGs cloudGs' ok' max fails').1 := by rw [hacts]; simp
+    cases a with
+    | upload g b =>
+      obtain ⟨hl, hnc, hw⟩ := u2 g b ha
+      have hw1 := w1 g hw
+      apply hnc
+      by_cases hcb : InGroups cloudGs g b
+      · exact (hB g b).mpr (Or.inl ⟨hcb, fun hd => (d1 g hd).2.1 hw1⟩)
+      · exact (hB g b).mpr (Or.inr (comp g b hl hcb hw1).1)
+    | createGroup g =>
+      obtain ⟨hng, hw⟩ := c2 g ha
+      have hw1 := w1 g hw
+      -- the second run creates a group only for a non-empty target group: get a local backup of it
+      -- (a cloud backup would make the group listed)
+      apply hng
+      by_cases hcg : HasGroup cloudGs g
+      · exact (hG g).mpr (Or.inl ⟨hcg, fun hd => (d1 g hd).2.1 hw1⟩)
+      · -- not listed before: the first run must have created it if it has a local backup
+        obtain ⟨b, hb⟩ := createGroup_has_backup localGs cloudGs' ok' max hmax fails' g ha
+        rcases hb with hl | hc
+        · have hcb : ¬ InGroups cloudGs g b := fun h => hcg (hasGroup_of_inGroups h)
+          exact (hG g).mpr (Or.inr ((comp g b hl hcb hw1).2.2 hcg).1)
+        · exact hasGroup_of_inGroups hc
+    | delete g =>
+      obtain ⟨hg, hnw, _⟩ := d2 g ha
+      apply hnw
+      rcases (hG g).mp hg with ⟨hcg, hnd⟩ | hcr
+      · apply w2
+        apply Classical.byContradiction
+        intro hn
+        exact hnd (deletes_complete localGs cloudGs true max hmax _ hok g hcg hn)
+      · exact w2 g (c1 g hcr).2
+
 /-- Non-vacuity: a state with a local-only group, a cloud-only old group and a shared group. -/
 example : syncBackups [(1, [1, 2]), (2, []), (3, [1])] [(0, [5]), (1, [1])] true 2 (fun _ => false)
     = ([.upload 1 2, .createGroup 3, .upload 3 1, .delete 0], true) := by decide
 
 example : wipedGuard [(3, [1])] [(1, [1]), (2, [1])] = true := by decide
+
+/-- … and the cloud as that run leaves it: the second run does nothing. -/
+example : (syncBackups [(1, [1, 2]), (2, []), (3, [1])] [(1, [1, 2]), (3, [1])] true 2 (fun _ => false)).1 = [] := by decide
 
 end Vsb.Sync
